@@ -218,6 +218,8 @@ pub const SLIP_BASES_LOCALE: &[&str] = &["en-u-ca-buddhist", "en-US-t-es-ar-k0-k
 pub const SPECIAL_WORDS: &[&str] = &[
     "root", "ROOT", "Root", "und", "UND", "mul", "zxx", "mis", "i-default", "x-private", "en-x-private", "*", "en-*", "C", "POSIX", "en_US.UTF-8", "en_US@euro", "true", "null", "None",
     "default", "und-x-foo", "und-u-ca-buddhist", "zh-cmn-Hans", "sgn-BE-FR", "i-klingon", "en-GB-oed", "art-lojban", "cel-gaulish", "no-bok", "zh-min-nan", "root-x-foo", "root-Latn",
+    "i-ami", "i-bnn", "i-enochian", "i-hak", "i-lux", "i-mingo", "i-navajo", "i-pwn", "i-tao", "i-tay", "i-tsu", "sgn-BE-NL", "sgn-CH-DE", "no-nyn", "zh-guoyu", "zh-hakka", "zh-min", "zh-xiang", "zh-cmn", "zh-yue", "zh-gan", "zh-wuu",
+    "sr-Latn-YU", "en-US-posix", "ja-JP-u-ca-japanese", "th-TH-u-nu-thai", "ja-Latn-hepburn-heploc", "hy-arevela", "aa-SAAHO", "en-US-u-va-posix", "es-419", "de-1901", "de-1996", "sl-rozaj-biske-1994",
     "en-root", "en-u-va-posix", "en-posix", "und-ZZ", "und-Zzzz", "und-Zzzz-ZZ", "en-Zzzz", "en-ZZ", "und-001", "zz", "zzz", "xx-XX", "iw", "in", "ji", "he", "id", "yi", "tl", "fil", "sh", "mo",
 ];
 
